@@ -231,6 +231,7 @@ type jsonEv struct {
 	RegetEq bool    `json:"regetEq"` // getters identical after the JSON round trip
 	// CBOR -> claims -> JSON -> claims -> CBOR
 	PrevIntact bool       `json:"prevIntact"`
+	EvJSONEq   bool       `json:"evJsonEq"` // Evidence{Claims}.MarshalJSON() gives the same document
 	CrossOK    bool       `json:"crossOK"`
 	CrossEq    bool       `json:"crossEq"`
 	Reg        []regEntry `json:"reg"`
@@ -252,6 +253,10 @@ func observeEncodeJSON(b int, src, how string, c psatoken.IClaims, reg []regEntr
 		}
 	}
 	ev.PrevIntact = prevIntact(doc)
+	if err == nil {
+		ej, eerr := (&psatoken.Evidence{Claims: c}).MarshalJSON()
+		ev.EvJSONEq = eerr == nil && bytes.Equal(ej, doc)
+	}
 	vdoc, verr := psatoken.ValidateAndEncodeClaimsToJSON(c)
 	ev.VEncOK = verr == nil
 	ev.VEncEq = verr == nil && err == nil && bytes.Equal(vdoc, doc)
